@@ -178,7 +178,17 @@ def check_one(ctx, key: str, label: str, always_single: bool):
             byp_ok = ex is None or norm.entails(ex, ("truth", pip_p, False))
             okarr = skip is None and before and byp_ok
             d = f"`{stmt_text(lp)}`: every arrival appended: {skip is None}; before the scan: {before}; bypassed only without arrivals: {byp_ok}"
-    ctx.ob(3, "K3", f"[{label}] new pipelines join the tail of the queue in arrival order before the scan", okarr, f, apps[0] if apps else f.node,
+    arr_ext = [c for c in exts if c.args and norm.is_name(c.args[0], pip_p)]
+    exts = [c for c in exts if c not in arr_ext]
+    if not okarr and len(arr_ext) == 1 and enclosing(arr_ext[0], (ast.For, ast.While), f.node) is None:
+        a = arr_ext[0]
+        before = all(g.dominates(a, p_) for p_ in pops)
+        IN = g.facts(blocked={g.node_of(a).id})
+        ex = IN.get(g.exit.id)
+        byp_ok = ex is None or norm.entails(ex, ("truth", pip_p, False))
+        okarr = before and byp_ok
+        d = f"`{norm.U(a)}`: before the scan: {before}; bypassed only without arrivals: {byp_ok}"
+    ctx.ob(3, "K3", f"[{label}] new pipelines join the tail of the queue in arrival order before the scan", okarr, f, (apps + arr_ext)[0] if (apps or arr_ext) else f.node,
            construct="for p in pipelines: queue.append(p)", detail=d)
     # survivors re-queued
     okreq = False
